@@ -2,8 +2,8 @@
 \* removedofs, discont, and one Mask / Prune / Part step chosen from a few patterns
 SPECIFICATION Spec
 CONSTANTS
-  DimA <- Dims_2a
-  DimB <- Dims_2b
+  DimA <- Dims_2a_q
+  DimB <- Dims_2b_q
   MaxDims = 2
   RemChoices <- Rem_2
   MaxDer = 1
